@@ -482,3 +482,27 @@ fn c07_capacity() {
     assert!(l.capacity() >= 18, "VERIF move list capacity {} < 18 = 16 pieces + 2 en-passant capturers", l.capacity());
     assert!(PROMOTION_PIECES.len() == 4, "VERIF promotion piece table");
 }
+
+/// C10 construction: Board::legals / legals_masked wrap an entry list in which every entry is non-empty and lies
+/// inside the mask, except that the LAST entry (the king's) may carry castling destinations outside the mask
+/// (established by C01's `well_shaped` clauses). Such an iterator satisfies the structural invariant wf, and its view
+/// is exactly the pending moves with destination in the mask.
+#[kani::proof]
+#[kani::unwind(20)]
+fn c10_ctor() {
+    use cap18 as m;
+    let mut s = m::any_snap();
+    s.index = 0;
+    s.rem = 4;
+    let mut i = 0;
+    while i < m::CAP {
+        if i < s.n {
+            kani::assume(s.moves[i] != 0);
+            kani::assume(s.moves[i] & !s.mask == 0 || i + 1 == s.n);
+        }
+        i += 1;
+    }
+    assert!(m::wf(&s), "VERIF a freshly generated iterator violates the structural invariant");
+    let q = m::any_q();
+    assert!(m::in_view(&s, q) == (m::in_pending(&s, q) && s.mask & m::bit(q.dst) != 0), "VERIF view of a fresh iterator != pending restricted to the mask");
+}
